@@ -364,17 +364,32 @@ def run_scenario(sc, do_validate=True):
             r, model = eng.check_valid(path, claim)
             if r == "unsat":
                 res["discharged"] += 1
-                if len(res["samples"]) < 2 and ob.kind == "eq":
+                if ob.kind == "true" and not any(s_.get("kind") == "true" for s_ in res["samples"]) and not isinstance(ob.cond, bool):
                     res["samples"].append(
                         {
                             "scenario": sc.key,
+                            "kind": "true",
                             "obligation": ob.label,
-                            "pc": [_short(c, 80) for c in path.pc[:4]],
-                            "impl": _short(it),
-                            "oracle": _short(ot),
-                            "verdict": "unsat (equal on this path for all values)",
+                            "pc": [_short(c, 80) for c in path.pc[-4:]],
+                            "claim": _short(claim, 200),
+                            "verdict": "unsat (PC and not claim): holds on this path for all values",
                         }
                     )
+                if ob.kind == "eq":
+                    size = len(str(it))
+                    cur = [s_ for s_ in res["samples"] if s_.get("kind") != "true"]
+                    if not cur or size > cur[0].get("_size", 0):
+                        res["samples"] = [s_ for s_ in res["samples"] if s_.get("kind") == "true"] + [
+                            {
+                                "scenario": sc.key,
+                                "obligation": ob.label,
+                                "pc": [_short(c, 80) for c in path.pc[-4:]],
+                                "impl": _short(it, 240),
+                                "oracle": _short(ot, 240),
+                                "verdict": "unsat (PC and impl != oracle): equal on this path for all values",
+                                "_size": size,
+                            }
+                        ]
                 continue
             if r == "unknown":
                 res["unknown"].append({"label": ob.label, "what": "obligation"})
@@ -597,8 +612,10 @@ def finish(prop, tier, seed, level, results, meta, t0, extra_cov=None, extra_vio
         herrs += r["harness_errors"]
         if r.get("bound_hit"):
             bound_hits.append(f"{r['key']}: {r['bound_hit']}")
-        if len(samples) < 6:
-            samples += r["samples"][:1]
+        if len(samples) < 8 and r["samples"]:
+            # prefer samples with a non-empty path condition, spread over scenarios
+            best = sorted(r["samples"], key=lambda s_: -s_.get("_size", 0))
+            samples += [{k_: v_ for k_, v_ in best[0].items() if k_ != "_size"}]
         violations += r["violations"]
         if r["obligations"] > 0:
             nontrivial += 1
@@ -650,7 +667,7 @@ def finish(prop, tier, seed, level, results, meta, t0, extra_cov=None, extra_vio
         "distinct_nontrivial": max(nontrivial, 0),
         "rule": "one evaluation = one obligation (PC ∧ impl≠oracle) sent to z3 on one feasible path of one scenario; "
         "distinct_nontrivial = scenarios with at least one obligation reached (feasible path reaching an assertion)",
-        "samples": samples[:6],
+        "samples": samples[:8],
         "scenarios": len(results),
         "feasible_paths": agg["paths"],
         "obligations": agg["obligations"],
